@@ -191,6 +191,53 @@ def run(ctx):
     ctx.require_count("R12.3", 50)
 
 
+    # ---- R12.7
+    ctx.rule("R12.7", "ELEMENT-INDEX: when the loader re-expands a saved array into one message per element, the index it writes behind the port name counts the messages sent so far (a counter started at 0 and stepped by one per round of the element loop) - not the iterator's slot position, which runs ahead as soon as the saved array contains a compressed run")
+    usv = ctx.ast("savefile.cpp")
+    dpm = usv.function("dispatch_printed_messages")
+    idx_calls = []
+    for c in A.calls_in(usv.body(dpm)):
+        if A.callee_name(c) in ("snprintf", "sprintf"):
+            lits = [A.string_literal(a) for a in A.kids(c)[1:]]
+            if "%d" in lits or "%u" in lits or "%zu" in lits:
+                idx_calls.append(c)
+    ctx.require(len(idx_calls) >= 1, "R12.7: the element index is no longer written with snprintf(\"%d\") in dispatch_printed_messages")
+    for c in idx_calls:
+        val = A.kids(c)[-1]
+        vid = A.ref_id(val)
+        vd = usv.by_id.get(vid) if vid else None
+        loop = None
+        for p_ in usv.ancestors(c):
+            if p_.get("kind") in ("ForStmt", "WhileStmt", "DoStmt"):
+                loop = p_
+                break
+        how = None
+        ok7 = False
+        if vd is not None and vd.get("kind") == "VarDecl" and loop is not None:
+            init = A.kids(vd)[-1] if A.kids(vd) else None
+            init0 = init is not None and A.int_literal(init) == 0
+            steps, others = [], []
+            for y in A.walk(usv.body(dpm)):
+                if y.get("kind") == "UnaryOperator" and y.get("opcode") in ("++", "--") and A.ref_id(A.kids(y)[0]) == vid:
+                    (steps if y.get("opcode") == "++" and S_contains(loop, y) else others).append(y)
+                elif y.get("kind") == "CompoundAssignOperator" and A.ref_id(A.kids(y)[0]) == vid:
+                    (steps if y.get("opcode") == "+=" and A.int_literal(A.kids(y)[1]) == 1 and S_contains(loop, y) else others).append(y)
+                elif y.get("kind") == "BinaryOperator" and y.get("opcode") == "=" and A.ref_id(A.kids(y)[0]) == vid:
+                    others.append(y)
+            # the step belongs to this loop itself, not to a loop nested in it
+            own = [y for y in steps if not any(S_contains(l2, y) for l2 in A.walk(loop) if l2 is not loop and l2.get("kind") in ("ForStmt", "WhileStmt", "DoStmt"))]
+            declared_outside = not S_contains(A.kids(loop)[-1], vd) if loop.get("kind") != "ForStmt" else not S_contains(loop.get("inner", [None] * 5)[4], vd)
+            ok7 = init0 and len(own) == 1 and len(steps) == 1 and not others and declared_outside
+            how = {"variable": vd.get("name"), "starts_at_0": bool(init0), "steps_per_round": len(own), "other_writes": len(others), "initialiser": A.src(init) if init is not None else None}
+        else:
+            how = {"expression": A.src(val)}
+        ctx.ob("R12.7", "array element index", ok7, site=A.where(c), detail=how,
+               key="R12.7:dispatch_printed_messages:element index",
+               what="dispatch_printed_messages numbers the elements of a re-expanded array with `%s` (%s), which is not a count of the messages sent: after a compressed run the following elements are sent to wrong indices" % (A.src(val), how))
+    # ---- R12.8 (= R13.6)
+    from . import C13 as _C13
+    _C13.self_edge_obligation(ctx, usv, "R12.8")
+
 def S_contains(root, node):
     nid = node.get("id")
     for x in A.walk(root):
